@@ -422,6 +422,13 @@ def AWriter.startWrite (c : Codec α) (w : AWriter) (v : α) : Poll WRet × AWri
   | (some e, core) => (.ready (.wrote (.error e)), ⟨core, w.snk⟩)
   | (none, core) => AWriter.pollSync ⟨core, w.snk⟩ .write
 
+/-- `AsyncWriter::set_max_len`: sets the field, nothing else — in particular not the buffer, which may hold a frame in flight. -/
+def AWriter.setMaxLen (w : AWriter) (k : Nat) : AWriter := ⟨{ w.core with maxLen := k }, w.snk⟩
+
+theorem AWriter.setMaxLen_keeps (w : AWriter) (k : Nat) :
+    (w.setMaxLen k).core.buffer = w.core.buffer ∧ (w.setMaxLen k).core.state = w.core.state ∧ (w.setMaxLen k).snk = w.snk :=
+  ⟨rfl, rfl, rfl⟩
+
 /-- caller decisions: call `write(v)` / `sync()` and poll the new future once (dropping a
     pending one first — it borrows the writer mutably), poll the pending future again, drop it. -/
 inductive WAct (α : Type) where
